@@ -325,10 +325,46 @@ def cj_upto(cj, idx):
     return d
 
 
+def explore_fallthrough(run, n):
+    """C24, second kind of malformed handler (oracle only; the Lean model's malformed handlers answer the parent search): one
+    state whose handler falls off the end of its if/elif ladder, i.e. returns no status for every signal it has no clause for,
+    the parent search included.  Whatever start_at / dispatch does, it must end normally or raise HsmTopologyException - never
+    loop, never fail otherwise"""
+    rng = run.rng
+    for _ in range(n):
+        c = charts.gen_chart(rng, nmax=9)
+        bad = rng.randrange(1, c.n + 1)
+        c.fallthrough = {bad}
+        start = rng.randrange(1, c.n + 1)
+        ops = [(0, start)] + [(1, rng.randrange(c.nsig)) for _ in range(rng.randint(1, 5))]
+        host = rng.choice(["plain", "plain", "instr", "queued"])
+        saved = charts.CALL_LIMIT
+        charts.CALL_LIMIT = 3000
+        try:
+            out, hsm, fns = charts.run_real(c, ops, host=host, spied=host != "plain" and rng.random() < 0.5)
+        finally:
+            charts.CALL_LIMIT = saved
+        cj = case_json(c, ops, {"host": host, "fallthrough": bad})
+        run.traces_validated += 1
+        run.count("fall-through handler: " + ("raise" if out[-1].startswith("raise") else out[-1].split(" ")[0].split(":")[0]))
+        if out[-1].startswith("diverge"):
+            run.violate("C24/fallthrough-diverges", "a state whose handler returns no status for signals it has no clause for (state %d): op %s "
+                        "never ended (more than 3000 handler calls) instead of raising HsmTopologyException" % (bad, ops[len(out) - 1]), cj)
+        elif out[-1].startswith("error"):
+            run.violate("C24/fallthrough-other-exception", "a fall-through handler (state %d): op %s ended with %s"
+                        % (bad, ops[len(out) - 1], out[-1].split(" ")[0]), cj)
+        run.case(cj, nontrivial=True)
+
+
 def replay(case):
     c = charts.GenChart.from_json(case["case"]["chart"] if "case" in case else case["chart"])
     cc = case.get("case", case)
     ops = [tuple(o) for o in cc["ops"]]
+    if "fallthrough" in cc:
+        c.fallthrough = {cc["fallthrough"]}
+        charts.CALL_LIMIT = 3000
+        print(charts.run_real(c, ops, host=cc.get("host", "plain"))[0])
+        return 0
     real, _, _ = charts.run_real(c, ops, host=cc.get("host", "plain"), spied=cc.get("spied", False))
     model = batch([(c, ops)], "hsm")[0].split(" | ")
     spec = batch([(c, ops)], "hsmspec")[0].split(" | ")
